@@ -5,7 +5,7 @@
    statements of Spec.v:  Blocks P src out  =  out consists of one block per element of src, in order,
    element i of block k at index offs k + i and related to the source element by P k. *)
 From Coq Require Import ZArith List Bool Arith Lia.
-From PV Require Import Base.NpSearch C12.Model C12.Spec C12.Proofs C12.Proofs2 C12.Proofs3.
+From PV Require Import Base.NpSearch C12.Model C12.Spec C12.Proofs C12.Proofs2 C12.Proofs3 C12.Proofs4.
 Import ListNotations.
 Open Scope Z_scope.
 
@@ -146,6 +146,10 @@ Proof.
   intros. split; [now apply chan_labels_b_sound|]. split; [now apply chan_map_b_sound|now apply pos_blocks_b_sound].
 Qed.
 Print Assumptions C12_checker_sound_channels.
+
+Theorem C12_checker_sound_apart : forall lens opos, apart_b lens opos = true -> Apart lens opos.
+Proof. exact apart_b_sound. Qed.
+Print Assumptions C12_checker_sound_apart.
 
 Theorem C12_checker_sound_tables : forall off ts out, table_shift_b off ts out = true -> TableShift off ts out.
 Proof. exact table_shift_b_sound. Qed.
